@@ -112,6 +112,11 @@ Parent(b, i) ==
 \* the if that an else line belongs to
 IfOf(b, p) == Max({m \in 1..(p-1) : b[m].d <= b[p].d})
 
+\* statement of the block at nesting k (1 = function level) that contains m
+StmtAt(b, m, k) ==
+  LET q == Max({x \in 1..m : b[x].d <= k - 1})
+  IN IF b[q].k = "else" THEN IfOf(b, q) ELSE q
+
 \* loops around line m
 LoopAncestors(b, m) == {p \in 1..(m-1) : IsLoop(b[p]) /\ BlockEnd(b, p) >= m}
 
@@ -395,6 +400,17 @@ LoopRead(b, i, j, v) ==
   IN IF around = {} \/ wl = 0 \/ FirstMention(b, i, j, v) = "w" THEN "no"
      ELSE IF Cardinality(around) > Cardinality(done) THEN "yes" ELSE "lost"
 
+\* v is written inside a compound statement of the region after a compound
+\* nested in that same statement has ended (a reader that forgets, at the end
+\* of the inner one, that it is still inside the outer one takes that write
+\* for unconditional)
+WriteAfterInner(b, i, j, v) ==
+  \E m \in i..j :
+     /\ Mention(b[m], v) \in {"w", "rw"}
+     /\ b[m].d > b[i].d
+     /\ \E h \in (StmtAt(b, m, b[i].d + 1) + 1)..(m - 1) :
+           IsHeader(b[h]) /\ b[h].k # "else" /\ StmtEnd(b, h) < m
+
 ShapeOf(b, i, j, v) ==
   LET fr == FirstReadLine(b, i, j, v)
       fw == FirstMentionLine(b, i, j, v)
@@ -406,7 +422,10 @@ ShapeOf(b, i, j, v) ==
       fa |-> FirstMention(b, j + 1, Len(b), v),             \* first mention after
       lr |-> LoopRead(b, i, j, v),
       nb |-> v \in ResultsBE(FALSE, b, i, j),               \* live after without back edges
-      li |-> v \in LiveInOnly(b, i, j)]
+      li |-> v \in LiveInOnly(b, i, j),
+      dw |-> v \in DW(b, i, j),
+      wai |-> WriteAfterInner(b, i, j, v)]
+\* (the binding adds "da": v is certainly bound on entry of the region)                             \* certainly written by the region
 
 -----------------------------------------------------------------------------
 (* The abstract result of a statement extraction                           *)
@@ -445,11 +464,6 @@ CommonLen(b, M) ==
   Max({k \in 1..(MaxDepth + 1) :
          /\ Len(Chain(b, Min(M))) >= k
          /\ \A m \in M : Len(Chain(b, m)) >= k /\ Chain(b, m)[k] = Chain(b, Min(M))[k]})
-
-\* statement of the block at nesting k (1 = function level) that contains m
-StmtAt(b, m, k) ==
-  LET q == Max({x \in 1..m : b[x].d <= k - 1})
-  IN IF b[q].k = "else" THEN IfOf(b, q) ELSE q
 
 \* where  x = <expr>  goes: before the statement of the innermost common
 \* block that contains the first match
